@@ -248,7 +248,7 @@ struct WlanEngine : Engine {
                 if (!sn->inner_pdu()) { if (!rest.empty()) return Verdict::bad("wlan:plaintext-mismatch", fmt("decrypted frame has no payload, original had %zu bytes", rest.size()), idx); }
                 else if (const RawPDU* rp = tins_cast<const RawPDU*>(sn->inner_pdu())) { if (Bytes(rp->payload().begin(), rp->payload().end()) != rest) return Verdict::bad("wlan:plaintext-mismatch", fmt("decrypted payload (%zu bytes) differs from the original (%zu bytes)", (size_t)rp->payload_size(), rest.size()), idx); st.inc("chk.plaintext_bytes"); }
                 else { // a parsed upper layer (IP): compare through serialization, guarded by the control path on the original bytes
-                    bool roundtrips = false; Bytes sb; try { IP ctl(rest.data(), (uint32_t)rest.size()); PDU::serialization_type cs = ctl.serialize(); roundtrips = Bytes(cs.begin(), cs.end()) == rest; PDU::serialization_type s2 = const_cast<PDU*>(sn->inner_pdu())->serialize(); sb.assign(s2.begin(), s2.end()); } catch (exception_base&) { roundtrips = false; }
+                    bool roundtrips = false; Bytes sb; try { IP ctl(rest.data(), (uint32_t)rest.size()); PDU::serialization_type cs = ctl.serialize(); roundtrips = Bytes(cs.begin(), cs.end()) == rest; PDU::serialization_type s2 = const_cast<PDU*>(sn->inner_pdu())->serialize(); sb.assign(s2.begin(), s2.end()); } catch (std::exception&) { roundtrips = false; }
                     if (!roundtrips) st.inc("probe.skipped_nonroundtrip_plaintext"); else { st.inc("chk.plaintext_bytes"); if (sb != rest) return Verdict::bad("wlan:plaintext-mismatch", fmt("decrypted IP payload (%zu bytes) differs from the original (%zu bytes)", sb.size(), rest.size()), idx); } }
             } else {
                 if (must && exc.empty() && kind == "relayed-data") return Verdict::bad("wlan:relayed-frame-not-decrypted", "a frame relayed by the AP (addr3 = another station of the BSS), protected with the receiver's key, was not decrypted although that key is known", idx);
